@@ -130,7 +130,11 @@ impl SparqlNumber {
 
     pub fn abs(&self) -> Self {
         match self {
-            SparqlNumber::NativeInt(inner) => inner.abs().into(),
+            SparqlNumber::NativeInt(inner) => match inner.checked_abs() {
+                Some(val) => val.into(),
+                // isize::MIN has no native opposite
+                None => (-BigInt::from(*inner)).into(),
+            },
             SparqlNumber::BigInt(inner) => inner.clone().into(),
             SparqlNumber::Decimal(inner) => inner.abs().into(),
             SparqlNumber::Float(inner) => inner.abs().into(),
@@ -344,7 +348,11 @@ impl std::ops::Neg for &'_ SparqlNumber {
 
     fn neg(self) -> Self::Output {
         match self {
-            SparqlNumber::NativeInt(inner) => Some((-inner).into()),
+            SparqlNumber::NativeInt(inner) => Some(match inner.checked_neg() {
+                Some(val) => val.into(),
+                // isize::MIN has no native opposite
+                None => (-BigInt::from(*inner)).into(),
+            }),
             SparqlNumber::BigInt(inner) => Some((-inner).into()),
             SparqlNumber::Decimal(inner) => Some((-inner).into()),
             SparqlNumber::Float(inner) => Some((-inner).into()),
